@@ -160,12 +160,13 @@ Definition c06_check (c : c06_case) : bool :=
       delete_slots_ok slots
   end.
 
-(* the property on the observations alone: replaying the delivered events over the first range result gives
-   every later range result *)
+(* the property on the observations alone: the delivered events are exactly the implementation's own successful
+   writes after R0 on the prefix (no hole, nothing extra, right content), and replaying them over the first
+   range result gives every later range result *)
 Definition c06_oracle (c : c06_case) : option N :=
   match c with
   | KLw P slots R0 kv0 wok evs lists =>
       if negb wok then None else
-      ok_if (forallb (fun rl => (fst rl <? R0) ||
+      ok_if (evs_eqb6 evs (filter (in_window R0 top P) (events_of slots)) && forallb (fun rl => (fst rl <? R0) ||
                                 store_eqb (apply_events (filter (fun e => e_rev e <=? fst rl) evs) kv0) (snd rl)) lists)
   end.
